@@ -31,6 +31,9 @@ type c08Case struct {
 	Hook    []int   `json:"hook"`    // [0] off | [1,a'] rewrite everything to a' | [2,k,a'] rewrite a with a%k==0 to a' | [3] error
 	Ops     [][]int `json:"ops"`     // [0,a,fault(,werr)] datagram | [1,r] reply from r | [2] close (idle expiry)
 	//                                   [3,a,fault,werr,pid,fid,cnt] message with PacketID pid, FragID fid, FragCount cnt
+	// address strings of individual pool indices (default: c08Addr(i)).  The generator uses this for destinations that
+	// are DISTINCT strings with different verdicts but equal under some digest / normalisation a cache might key on.
+	Names map[int]string `json:"names"`
 }
 
 // c08IO is the fake environment with one addition: a socket handed out by UDP() while a write error is armed
@@ -86,8 +89,15 @@ func c08Run(c c08Case, res map[string]any) {
 	const sid = 7
 	pool := make([]string, c.Pool)
 	index := map[string]int{}
+	dupName := ""
 	for i := range pool {
 		pool[i] = c08Addr(i)
+		if nm, named := c.Names[i]; named && i != 0 {
+			pool[i] = nm
+		}
+		if _, dup := index[pool[i]]; dup {
+			dupName = pool[i]
+		}
 		index[pool[i]] = i
 	}
 	idx := func(s string) int {
@@ -136,24 +146,32 @@ func c08Run(c c08Case, res map[string]any) {
 			ok, why = false, s
 		}
 	}
-	keysOf := func() map[string]bool {
-		sm.mutex.RLock()
-		e := sm.m[sid]
-		sm.mutex.RUnlock()
-		if e == nil {
-			return nil
+	if dupName != "" {
+		fail(fmt.Sprintf("harness: the case names two pool indices %q", dupName))
+	}
+	// observations of unexported state go through reflection by name (c08obs_test.go): the decision cache's keys
+	// (the model's eviction oracle) and size; "unavailable" / "len-only" is recorded, the verdict below runs regardless
+	obs := c08NewObs(sm)
+	keysOf := func() (map[string]bool, int) { return obs.cache(sid) }
+	// the session's socket: there is one session id, so it is the one socket of the fake outbound that is open
+	openSock := func() *vfConn {
+		env.mu.Lock()
+		defer env.mu.Unlock()
+		for i := len(env.socks) - 1; i >= 0; i-- {
+			if env.socks[i].closes == 0 {
+				return env.socks[i]
+			}
 		}
-		ks := make(map[string]bool, len(e.aclCache))
-		for k := range e.aclCache {
-			ks[k] = true
-		}
-		return ks
+		return nil
 	}
 	// reference bookkeeping for the verdict (independent of the Coq model)
 	//   live: the session has its socket; hooked: 1 the hook rewrote the first destination, 0 it did not,
 	//   2 undecidable (the fragments of the first datagram disagree and only some of them are rewritten)
 	live, hooked, ovr := false, 0, ""
 	origs := map[string]bool{}
+	// destinations this (plain) session already has a verdict for: the one the dial vetted and every one CheckUDP
+	// was consulted for since.  A datagram naming none of them cannot be decided without asking the policy.
+	vetted := map[string]bool{}
 	// reference defragmenter (own transcription of the protocol rule: one packet id at a time, a fragment of
 	// another packet id or count discards what is there, duplicates ignored, complete when all ids 0..cnt-1 are in)
 	rpid, rcnt := 0, 0
@@ -214,18 +232,16 @@ func c08Run(c c08Case, res map[string]any) {
 			// arm the write error: on the session's socket if it has one, on the socket the dial of this feed creates otherwise
 			var armed *vfConn
 			if werr {
-				sm.mutex.RLock()
-				ent0 := sm.m[sid]
-				sm.mutex.RUnlock()
-				if ent0 != nil && ent0.conn != nil {
-					armed = ent0.conn.(*vfConn)
+				if sk := openSock(); sk != nil {
+					armed = sk
 					env.mu.Lock()
 					armed.writeErr = 1
 					env.mu.Unlock()
 				}
 				cio.armWriteErr = true
 			}
-			before := keysOf()
+			before, _ := keysOf()
+			wasLive, wasHooked := live, hooked
 			m := env.mark()
 			seq++
 			env.mu.Lock()
@@ -245,9 +261,9 @@ func c08Run(c c08Case, res map[string]any) {
 			}
 			env.mu.Unlock()
 			cio.armWriteErr = false
-			after := keysOf()
-			if len(after) > maxCache {
-				maxCache = len(after)
+			after, nAfter := keysOf()
+			if nAfter > maxCache {
+				maxCache = nAfter
 			}
 			complete, set := rfeed(pid, fid, cnt, a)
 			kind, x, consulted, dialed, hasDial, dialOK, chk := 1, 0, false, 0, false, false, 0
@@ -283,10 +299,7 @@ func c08Run(c c08Case, res map[string]any) {
 					fail(fmt.Sprintf("CheckUDP was consulted for %q but the datagram was handed to WriteTo for %q", checkedAddr, ev.A))
 				}
 			}
-			sm.mutex.RLock()
-			ent := sm.m[sid]
-			sm.mutex.RUnlock()
-			if nwrites == 0 && ent == nil {
+			if nwrites == 0 && sm.Count() == 0 {
 				kind = 2
 			}
 			evicted, hasEv := 0, false
@@ -327,6 +340,7 @@ func c08Run(c c08Case, res map[string]any) {
 						}
 						live, ovr = true, pool[dialed]
 						origs = map[string]bool{}
+						vetted = map[string]bool{pool[dialed]: true}
 						switch {
 						case nKeep == 0:
 							hooked = 1
@@ -394,6 +408,22 @@ func c08Run(c c08Case, res map[string]any) {
 						}
 					}
 				}
+				// a plain session that was already up meets a datagram none of whose addresses it has a verdict for:
+				// the policy must be asked (whatever the cache is keyed on, two different strings are two questions)
+				if wasLive && wasHooked == 0 && live {
+					known := false
+					for _, c0 := range set {
+						if vetted[pool[c0]] {
+							known = true
+						}
+					}
+					if !known && !consulted {
+						fail(fmt.Sprintf("datagram for %q decided without consulting CheckUDP although the session never had a verdict for that destination", pool[a]))
+					}
+				}
+				if hasCheck {
+					vetted[checkedAddr] = true
+				}
 				if werr && nwrites == 1 && !wfailed {
 					fail("harness: the injected write error did not reach the socket")
 				}
@@ -423,14 +453,11 @@ func c08Run(c c08Case, res map[string]any) {
 			}
 			steps = append(steps, []int{code, x, evicted, dialed, chk})
 		case 1:
-			sm.mutex.RLock()
-			ent := sm.m[sid]
-			sm.mutex.RUnlock()
-			if ent == nil || ent.conn == nil {
+			conn := openSock()
+			if conn == nil {
 				steps = append(steps, []int{0, 0})
 				continue
 			}
-			conn := ent.conn.(*vfConn)
 			m := env.mark()
 			seq++
 			conn.rd <- vfRead{from: pool[op[1]], tag: int64(conn.sock)<<24 | seq}
@@ -463,6 +490,7 @@ func c08Run(c c08Case, res map[string]any) {
 			synctest.Wait()
 			live, hooked, ovr = false, 0, ""
 			origs = map[string]bool{}
+			vetted = map[string]bool{}
 			rreset()
 			steps = append(steps, []int{})
 		}
@@ -477,6 +505,8 @@ func c08Run(c c08Case, res map[string]any) {
 	}
 	res["steps"] = steps
 	res["maxcache"] = maxCache
+	res["obs"] = map[string]string{"aclCache": obs.status}
+	res["cap"] = maxSessionACLCache
 	res["ok"] = ok
 	res["why"] = why
 }
